@@ -1,14 +1,188 @@
-"""Generated/Retention.lean from loguru/_file_sink.py (C10): the pattern-list construction of
-`FileSink._make_glob_patterns`, the sort key / slice of `Retention.retention_count`, the comparison
-of `Retention.retention_age`, the guard and position of the retention block in `_terminate_file`,
-and shape checks of the code the hand model mirrors (fail closed)."""
+"""Generated/Retention.lean (C10) from loguru/_file_sink.py and loguru/_string_parsers.py:
+
+* the pattern-list construction of `FileSink._make_glob_patterns` and the wildcard of a field,
+* the sort key / slice of `Retention.retention_count`, the comparison of `Retention.retention_age`,
+* the guard and position of the retention block in `_terminate_file`,
+* the `number=` / `seconds=` kernels and the order of `_make_retention_function`,
+* the unit table of `parse_duration` (with its regular expression and accumulation pinned).
+
+What is pinned is the SEMANTIC CONTENT (which call, on which argument, in which order, under which
+test), not the source text: the matchers are insensitive to the names of locals / parameters /
+inner functions, to single-assignment local aliases (inlined), to `import m` + `m.f` versus
+`from m import f`, to `"*" * (c)` versus `("*" if c else "")`, to `if not c: return A; return B`
+versus `if c: return B; return A` versus a conditional expression, to `if/elif` versus `if; if` when
+every branch returns, and to where unrelated helper code lives.  Anything the matchers do not
+understand fails closed (definitions absent, the build of Props/C10 breaks)."""
 import ast
+import copy
+from fractions import Fraction
 
 from extract_lib import Tr, Unsupported, emit, find_func, lean_chars, parse_module
 
 
 def _norm(node):
     return ast.unparse(node).replace('"', "'")
+
+
+# ----------------------------------------------------------------------------- generic helpers
+class Mod:
+    """a module with its import aliases resolved to qualified names"""
+
+    def __init__(self, tree, package="loguru"):
+        self.tree = tree
+        self.alias = {}
+        for node in tree.body:
+            if isinstance(node, ast.Import):
+                for a in node.names:
+                    self.alias[a.asname or a.name.split(".")[0]] = a.name if a.asname else a.name.split(".")[0]
+            elif isinstance(node, ast.ImportFrom):
+                base = (package + "." if node.level else "") + (node.module or "")
+                base = base.rstrip(".")
+                for a in node.names:
+                    self.alias[a.asname or a.name] = (base + "." + a.name) if base else a.name
+
+    def qual(self, node):
+        """qualified dotted name of a Name/Attribute chain, imports resolved; None otherwise"""
+        if isinstance(node, ast.Name):
+            return self.alias.get(node.id, node.id)
+        if isinstance(node, ast.Attribute):
+            q = self.qual(node.value)
+            return None if q is None else q + "." + node.attr
+        return None
+
+    def is_call(self, node, qualname, nargs=None, nkw=0):
+        return (isinstance(node, ast.Call) and self.qual(node.func) == qualname
+                and (nargs is None or len(node.args) == nargs) and len(node.keywords) == nkw)
+
+
+class _Rename(ast.NodeTransformer):
+    def __init__(self, mapping):
+        self.mapping = mapping
+
+    def visit_Name(self, node):
+        if node.id in self.mapping:
+            return ast.copy_location(ast.Name(id=self.mapping[node.id], ctx=node.ctx), node)
+        return node
+
+    def visit_arg(self, node):
+        if node.arg in self.mapping:
+            node.arg = self.mapping[node.arg]
+        return node
+
+
+def rename(node, mapping):
+    return _Rename(mapping).visit(copy.deepcopy(node))
+
+
+class _Inline(ast.NodeTransformer):
+    def __init__(self, defs):
+        self.defs = defs
+
+    def visit_Name(self, node):
+        if isinstance(node.ctx, ast.Load) and node.id in self.defs:
+            return self.visit(copy.deepcopy(self.defs[node.id]))
+        return node
+
+
+def single_defs(fn):
+    """{name: value} for locals of `fn` assigned exactly once by a plain `name = expr` at the top
+    level of the function body (candidates for alias inlining)"""
+    count, defs = {}, {}
+    for node in ast.walk(fn):
+        if isinstance(node, ast.Name) and isinstance(node.ctx, ast.Store):
+            count[node.id] = count.get(node.id, 0) + 1
+        elif isinstance(node, ast.arg):
+            count[node.arg] = count.get(node.arg, 0) + 1
+    for st in fn.body:
+        if isinstance(st, ast.Assign) and len(st.targets) == 1 and isinstance(st.targets[0], ast.Name) \
+                and count.get(st.targets[0].id) == 1:
+            defs[st.targets[0].id] = st.value
+    return defs
+
+
+def inline(node, defs):
+    return _Inline(defs).visit(copy.deepcopy(node))
+
+
+def same(a, b):
+    return ast.dump(a) == ast.dump(b)
+
+
+def arg_names(fn, n):
+    a = fn.args
+    if a.vararg or a.kwarg or a.kwonlyargs or a.posonlyargs or len(a.args) != n:
+        raise Unsupported("%s: expected %d positional parameters" % (fn.name, n))
+    return [x.arg for x in a.args]
+
+
+def terminates(stmts):
+    return bool(stmts) and isinstance(stmts[-1], (ast.Return, ast.Raise))
+
+
+def flatten_ifs(body):
+    """`if a: return x / elif b: return y / else: z`  ==  `if a: return x; if b: return y; z`
+    (sound because every taken branch leaves the function)"""
+    out = []
+    for st in body:
+        while isinstance(st, ast.If) and st.orelse and terminates(st.body):
+            out.append(ast.If(test=st.test, body=st.body, orelse=[]))
+            rest = st.orelse
+            if len(rest) == 1 and isinstance(rest[0], ast.If):
+                st = rest[0]
+            else:
+                out.extend(flatten_ifs(rest))
+                st = None
+                break
+        if st is not None:
+            out.append(st)
+    return out
+
+
+def cond_polarity(test, is_subject):
+    """for a test about one subject expression: +1 if it is `subject` (truthy), -1 if `not subject`;
+    None if it is something else"""
+    if is_subject(test):
+        return 1
+    if isinstance(test, ast.UnaryOp) and isinstance(test.op, ast.Not):
+        p = cond_polarity(test.operand, is_subject)
+        return None if p is None else -p
+    return None
+
+
+def none_polarity(test, name):
+    """+1 for `name is not None`, -1 for `name is None`"""
+    if isinstance(test, ast.Compare) and len(test.ops) == 1 and isinstance(test.left, ast.Name) \
+            and test.left.id == name and isinstance(test.comparators[0], ast.Constant) \
+            and test.comparators[0].value is None:
+        if isinstance(test.ops[0], ast.IsNot):
+            return 1
+        if isinstance(test.ops[0], ast.Is):
+            return -1
+    if isinstance(test, ast.UnaryOp) and isinstance(test.op, ast.Not):
+        p = none_polarity(test.operand, name)
+        return None if p is None else -p
+    return None
+
+
+def two_way_returns(stmts, polarity_of):
+    """the statements after a point of a function that returns one of two values depending on one
+    test: returns (value_when_true, value_when_false) w.r.t. positive polarity.  Accepted:
+    `if T: return A` + `return B`;  `if T: return A else: return B`;  `return A if T else B`."""
+    stmts = flatten_ifs(stmts)
+    if len(stmts) == 1 and isinstance(stmts[0], ast.Return) and isinstance(stmts[0].value, ast.IfExp):
+        e = stmts[0].value
+        p = polarity_of(e.test)
+        if p is None:
+            raise Unsupported("unrecognised test: " + _norm(e.test))
+        return (e.body, e.orelse) if p > 0 else (e.orelse, e.body)
+    if len(stmts) == 2 and isinstance(stmts[0], ast.If) and not stmts[0].orelse and len(stmts[0].body) == 1 \
+            and isinstance(stmts[0].body[0], ast.Return) and isinstance(stmts[1], ast.Return):
+        p = polarity_of(stmts[0].test)
+        if p is None:
+            raise Unsupported("unrecognised test: " + _norm(stmts[0].test))
+        a, b = stmts[0].body[0].value, stmts[1].value
+        return (a, b) if p > 0 else (b, a)
+    raise Unsupported("expected a two-way return, got: " + " ; ".join(_norm(s) for s in stmts)[:200])
 
 
 def _str_list(node, env, what):
@@ -24,104 +198,179 @@ def _str_list(node, env, what):
     return "[" + ", ".join(terms) + "]"
 
 
-def _glob_patterns(tree):
-    fn = find_func(tree, "_make_glob_patterns", cls="FileSink")
-    if [a.arg for a in fn.args.args] != ["path"]:
-        raise Unsupported("_make_glob_patterns signature")
-    body = fn.body
-    want = [
-        "formatter = string.Formatter()",
-        "tokens = formatter.parse(path)",
-        "escaped = ''.join((glob.escape(text) + '*' * (name is not None) for text, name, *_ in tokens))",
-        "root, ext = os.path.splitext(escaped)",
-    ]
-    got = [_norm(s) for s in body[:4]]
-    if got != want:
-        raise Unsupported("_make_glob_patterns prologue changed: %r" % (got,))
-    # the wildcard that stands for a field
-    gen = body[2].value.args[0]
-    star = gen.elt.right.left
-    if not (isinstance(star, ast.Constant) and isinstance(star.value, str)):
-        raise Unsupported("field wildcard is not a literal")
-    if len(body) != 6 or not isinstance(body[4], ast.If) or _norm(body[4].test) != "not ext" \
-            or body[4].orelse or len(body[4].body) != 1 or not isinstance(body[4].body[0], ast.Return) \
-            or not isinstance(body[5], ast.Return):
-        raise Unsupported("_make_glob_patterns: expected `if not ext: return [...]` then `return [...]`")
-    env = {"escaped": ("escaped", "str"), "root": ("root", "str"), "ext": ("ext", "str")}
+# ----------------------------------------------------------------------------- _make_glob_patterns
+def _glob_patterns(m):
+    fn = find_func(m.tree, "_make_glob_patterns", cls="FileSink")
+    (path,) = arg_names(fn, 1)
+    defs = single_defs(fn)
+    # the statement `R, X = os.path.splitext(E)`
+    idx = None
+    for i, st in enumerate(fn.body):
+        if isinstance(st, ast.Assign) and len(st.targets) == 1 and isinstance(st.targets[0], ast.Tuple) \
+                and len(st.targets[0].elts) == 2 and all(isinstance(e, ast.Name) for e in st.targets[0].elts) \
+                and m.is_call(st.value, "os.path.splitext", 1):
+            if idx is not None:
+                raise Unsupported("_make_glob_patterns: two splitext statements")
+            idx = i
+    if idx is None:
+        raise Unsupported("_make_glob_patterns: `root, ext = os.path.splitext(<escaped>)` not found")
+    for st in fn.body[:idx]:
+        if not (isinstance(st, ast.Assign) and len(st.targets) == 1 and isinstance(st.targets[0], ast.Name)
+                and st.targets[0].id in defs):
+            raise Unsupported("_make_glob_patterns: unexpected statement before splitext: " + _norm(st))
+    root_v, ext_v = (e.id for e in fn.body[idx].targets[0].elts)
+    if root_v == ext_v:
+        raise Unsupported("splitext targets")
+    E = inline(fn.body[idx].value.args[0], defs)
+    # E = "".join(glob.escape(T) + W(N) for T, N, *_ in string.Formatter().parse(path))
+    if not (isinstance(E, ast.Call) and isinstance(E.func, ast.Attribute) and E.func.attr == "join"
+            and isinstance(E.func.value, ast.Constant) and E.func.value.value == "" and len(E.args) == 1
+            and not E.keywords and isinstance(E.args[0], (ast.GeneratorExp, ast.ListComp))
+            and len(E.args[0].generators) == 1):
+        raise Unsupported("escaped text is not ''.join(<generator>): " + _norm(E))
+    g = E.args[0]
+    comp = g.generators[0]
+    tgt = comp.target
+    if comp.ifs or comp.is_async or not (isinstance(tgt, ast.Tuple) and len(tgt.elts) in (3, 4)
+                                         and isinstance(tgt.elts[0], ast.Name) and isinstance(tgt.elts[1], ast.Name)):
+        raise Unsupported("generator target is not `text, name, …`: " + _norm(tgt))
+    rest = tgt.elts[2:]
+    if not ((len(rest) == 1 and isinstance(rest[0], ast.Starred)) or
+            (len(rest) == 2 and all(isinstance(e, ast.Name) for e in rest))):
+        raise Unsupported("generator target tail: " + _norm(tgt))
+    text_v, name_v = tgt.elts[0].id, tgt.elts[1].id
+    it = comp.iter
+    if not (isinstance(it, ast.Call) and isinstance(it.func, ast.Attribute) and it.func.attr == "parse"
+            and m.is_call(it.func.value, "string.Formatter", 0) and len(it.args) == 1 and not it.keywords
+            and isinstance(it.args[0], ast.Name) and it.args[0].id == path):
+        raise Unsupported("tokens are not string.Formatter().parse(path): " + _norm(it))
+    elt = g.elt
+    if not (isinstance(elt, ast.BinOp) and isinstance(elt.op, ast.Add) and m.is_call(elt.left, "glob.escape", 1)
+            and isinstance(elt.left.args[0], ast.Name) and elt.left.args[0].id == text_v):
+        raise Unsupported("element is not glob.escape(text) + <wildcard>: " + _norm(elt))
+    w = elt.right
+    star = None
+    if isinstance(w, ast.BinOp) and isinstance(w.op, ast.Mult):
+        for a, b in ((w.left, w.right), (w.right, w.left)):
+            if isinstance(a, ast.Constant) and isinstance(a.value, str) and none_polarity(b, name_v) == 1:
+                star = a.value
+    elif isinstance(w, ast.IfExp) and isinstance(w.body, ast.Constant) and isinstance(w.orelse, ast.Constant):
+        p = none_polarity(w.test, name_v)
+        yes, no = (w.body.value, w.orelse.value) if p == 1 else (w.orelse.value, w.body.value)
+        if p is not None and isinstance(yes, str) and no == "":
+            star = yes
+    if star is None:
+        raise Unsupported("field wildcard is not `'*' * (name is not None)` or an equivalent conditional: " + _norm(w))
+    # after splitext: the two lists, selected by the truth of the extension
+    with_ext, without_ext = two_way_returns(
+        fn.body[idx + 1:], lambda t: cond_polarity(t, lambda e: isinstance(e, ast.Name) and e.id == ext_v))
+    env = {root_v: ("root", "str"), ext_v: ("ext", "str")}
+    for name, val in defs.items():
+        if same(inline(val, defs), E):
+            env[name] = ("escaped", "str")
     out = "/-- the wildcard a replacement field is turned into -/\n"
-    out += "def fieldGlob : Py.Str := %s\n" % lean_chars(star.value)
-    out += "/-- `if not ext: return %s` -/\n" % _norm(body[4].body[0].value)
-    out += "def patternsNoExt (escaped : Py.Str) : List Py.Str := %s\n" % _str_list(body[4].body[0].value, env, "no-ext")
-    out += "/-- `return %s` -/\n" % _norm(body[5].value)
-    out += "def patternsExt (escaped root ext : Py.Str) : List Py.Str := %s\n\n" % _str_list(body[5].value, env, "ext")
+    out += "def fieldGlob : Py.Str := %s\n" % lean_chars(star)
+    out += "/-- without extension: `%s` -/\n" % _norm(without_ext)
+    out += "def patternsNoExt (escaped : Py.Str) : List Py.Str := %s\n" % _str_list(without_ext, env, "no-ext")
+    out += "/-- with extension: `%s` -/\n" % _norm(with_ext)
+    out += "def patternsExt (escaped root ext : Py.Str) : List Py.Str := %s\n\n" % _str_list(with_ext, env, "ext")
     return out
 
 
-def _retention_count(tree):
-    fn = find_func(tree, "retention_count", cls="Retention")
-    if [a.arg for a in fn.args.args] != ["logs", "number"]:
-        raise Unsupported("retention_count signature")
-    if len(fn.body) != 2 or not isinstance(fn.body[0], ast.FunctionDef) or not isinstance(fn.body[1], ast.For):
-        raise Unsupported("retention_count shape")
-    key = fn.body[0]
-    if [a.arg for a in key.args.args] != ["log"] or len(key.body) != 1 or not isinstance(key.body[0], ast.Return):
-        raise Unsupported("key_log shape")
-    tup = key.body[0].value
-    if not (isinstance(tup, ast.Tuple) and len(tup.elts) == 2):
-        raise Unsupported("key_log does not return a pair: " + _norm(tup))
+# ----------------------------------------------------------------------------- Retention.*
+class _StatTr(Tr):
+    """`os.stat(<file>).st_mtime` is the modification time"""
 
-    def call_stat(tr, node):
-        raise Unsupported("call")
+    def __init__(self, env, m, file_var):
+        super().__init__(env)
+        self.m, self.file_var = m, file_var
 
-    class KTr(Tr):
-        def tr(self, node):
-            if _norm(node) == "os.stat(log).st_mtime":
-                return ("mtime", "int")
-            return super().tr(node)
+    def tr(self, node):
+        if isinstance(node, ast.Attribute) and node.attr == "st_mtime" and self.m.is_call(node.value, "os.stat", 1) \
+                and isinstance(node.value.args[0], ast.Name) and node.value.args[0].id == self.file_var:
+            return ("mtime", "int")
+        return super().tr(node)
 
-    env = {"log": ("log", "str")}
-    a, ta = KTr(env).tr(tup.elts[0])
-    b, tb = KTr(env).tr(tup.elts[1])
-    if (ta, tb) != ("int", "str"):
-        raise Unsupported("key_log component types %s,%s" % (ta, tb))
-    loop = fn.body[1]
-    it = loop.iter
+
+def _is_remove(m, st, var):
+    return (isinstance(st, ast.Expr) and m.is_call(st.value, "os.remove", 1)
+            and isinstance(st.value.args[0], ast.Name) and st.value.args[0].id == var)
+
+
+def _retention_count(m):
+    fn = find_func(m.tree, "retention_count", cls="Retention")
+    logs, number = arg_names(fn, 2)
+    defs = single_defs(fn)
+    inner = {s.name: s for s in fn.body if isinstance(s, ast.FunctionDef)}
+    loops = [s for s in fn.body if isinstance(s, ast.For)]
+    others = [s for s in fn.body if not isinstance(s, (ast.FunctionDef, ast.For))
+              and not (isinstance(s, ast.Assign) and len(s.targets) == 1 and isinstance(s.targets[0], ast.Name)
+                       and s.targets[0].id in defs)]
+    if len(loops) != 1 or others or fn.body[-1] is not loops[0]:
+        raise Unsupported("retention_count: expected [key function,] [aliases,] one final for loop")
+    loop = loops[0]
+    it = inline(loop.iter, defs)
     if not (isinstance(it, ast.Subscript) and isinstance(it.slice, ast.Slice) and it.slice.upper is None
             and it.slice.step is None and it.slice.lower is not None):
         raise Unsupported("retention_count: loop does not iterate over `sorted(...)[<start>:]`: " + _norm(it))
-    if _norm(it.value) != "sorted(logs, key=key_log)":
-        raise Unsupported("retention_count: sorted call changed: " + _norm(it.value))
-    if _norm(loop.target) != "log" or [_norm(s) for s in loop.body] != ["os.remove(log)"] or loop.orelse:
-        raise Unsupported("retention_count: loop body changed")
-    start, ts = Tr({"number": ("number", "int")}).tr(it.slice.lower)
+    srt = it.value
+    if not (isinstance(srt, ast.Call) and m.qual(srt.func) == "sorted" and len(srt.args) == 1
+            and isinstance(srt.args[0], ast.Name) and srt.args[0].id == logs
+            and len(srt.keywords) == 1 and srt.keywords[0].arg == "key"):
+        raise Unsupported("retention_count: expected sorted(logs, key=<key>) and nothing else: " + _norm(srt))
+    k = srt.keywords[0].value
+    if isinstance(k, ast.Name) and k.id in inner:
+        kf = inner[k.id]
+        (kp,) = arg_names(kf, 1)
+        if len(kf.body) != 1 or not isinstance(kf.body[0], ast.Return):
+            raise Unsupported("key function body")
+        kbody = kf.body[0].value
+    elif isinstance(k, ast.Lambda) and len(k.args.args) == 1:
+        kp, kbody = k.args.args[0].arg, k.body
+    else:
+        raise Unsupported("sort key is neither an inner function nor a lambda: " + _norm(k))
+    if len(inner) > (1 if isinstance(k, ast.Name) else 0):
+        raise Unsupported("retention_count: unexpected inner functions")
+    if not (isinstance(kbody, ast.Tuple) and len(kbody.elts) == 2):
+        raise Unsupported("sort key does not return a pair: " + _norm(kbody))
+    a, ta = _StatTr({kp: ("log", "str")}, m, kp).tr(kbody.elts[0])
+    b, tb = _StatTr({kp: ("log", "str")}, m, kp).tr(kbody.elts[1])
+    if (ta, tb) != ("int", "str"):
+        raise Unsupported("sort key component types %s,%s" % (ta, tb))
+    if not isinstance(loop.target, ast.Name) or loop.orelse or len(loop.body) != 1 \
+            or not _is_remove(m, loop.body[0], loop.target.id):
+        raise Unsupported("retention_count: loop body is not `os.remove(<loop variable>)`")
+    start, ts = Tr({number: ("number", "int")}).tr(it.slice.lower)
     if ts != "int":
         raise Unsupported("slice start type")
-    out = "/-- `key_log`: %s (st_mtime as an exact integer) -/\n" % _norm(tup)
+    out = "/-- sort key: %s (st_mtime as an exact integer) -/\n" % _norm(kbody)
     out += "def keyLog (mtime : Int) (log : Py.Str) : Int × Py.Str := (%s, %s)\n" % (a, b)
     out += "/-- start of the slice `%s` -/\n" % _norm(it)
     out += "def countSliceStart (number : Int) : Int := %s\n\n" % start
     return out
 
 
-def _retention_age(tree):
-    fn = find_func(tree, "retention_age", cls="Retention")
-    if [a.arg for a in fn.args.args] != ["logs", "seconds"]:
-        raise Unsupported("retention_age signature")
-    if len(fn.body) != 2 or _norm(fn.body[0]) != "t = datetime.datetime.now().timestamp()":
-        raise Unsupported("retention_age: `t = now` changed")
-    loop = fn.body[1]
-    if not (isinstance(loop, ast.For) and _norm(loop.target) == "log" and _norm(loop.iter) == "logs"
-            and len(loop.body) == 1 and isinstance(loop.body[0], ast.If) and not loop.body[0].orelse
-            and [_norm(s) for s in loop.body[0].body] == ["os.remove(log)"]):
-        raise Unsupported("retention_age: loop shape changed")
-
-    class ATr(Tr):
-        def tr(self, node):
-            if _norm(node) == "os.stat(log).st_mtime":
-                return ("mtime", "int")
-            return super().tr(node)
-
-    term, typ = ATr({"t": ("t", "int"), "seconds": ("seconds", "int")}).tr(loop.body[0].test)
+def _retention_age(m):
+    fn = find_func(m.tree, "retention_age", cls="Retention")
+    logs, seconds = arg_names(fn, 2)
+    if len(fn.body) != 2:
+        raise Unsupported("retention_age: expected `<t> = now` and one loop")
+    st0, loop = fn.body
+    v = st0.value if isinstance(st0, ast.Assign) else None
+    if not (isinstance(st0, ast.Assign) and len(st0.targets) == 1 and isinstance(st0.targets[0], ast.Name)
+            and isinstance(v, ast.Call) and not v.args and not v.keywords and isinstance(v.func, ast.Attribute)
+            and v.func.attr == "timestamp" and m.is_call(v.func.value, "datetime.datetime.now", 0)):
+        raise Unsupported("retention_age: first statement is not `<t> = datetime.datetime.now().timestamp()`")
+    t = st0.targets[0].id
+    if not (isinstance(loop, ast.For) and isinstance(loop.target, ast.Name) and isinstance(loop.iter, ast.Name)
+            and loop.iter.id == logs and not loop.orelse and len(loop.body) == 1 and isinstance(loop.body[0], ast.If)
+            and not loop.body[0].orelse and len(loop.body[0].body) == 1
+            and _is_remove(m, loop.body[0].body[0], loop.target.id)):
+        raise Unsupported("retention_age: loop is not `for f in logs: if <test>: os.remove(f)`")
+    fv = loop.target.id
+    if len({t, fv, logs, seconds}) != 4:
+        raise Unsupported("retention_age: name clash")
+    term, typ = _StatTr({t: ("t", "int"), seconds: ("seconds", "int")}, m, fv).tr(loop.body[0].test)
     if typ != "bool":
         raise Unsupported("retention_age test is not a comparison")
     out = "/-- `%s` -/\n" % _norm(loop.body[0].test)
@@ -129,22 +378,46 @@ def _retention_age(tree):
     return out
 
 
-def _terminate(tree):
-    fn = find_func(tree, "_terminate_file", cls="FileSink")
+# ----------------------------------------------------------------------------- _terminate_file
+def _is_retention_block(m, stmts):
+    """`L = {f for p in self._glob_patterns for f in glob.glob(p) if os.path.isfile(f)}` then
+    `self._retention_function(list(L))` (a list comprehension would hand duplicates on: refused)"""
+    if len(stmts) != 2:
+        return False
+    a, c = stmts
+    if not (isinstance(a, ast.Assign) and len(a.targets) == 1 and isinstance(a.targets[0], ast.Name)
+            and isinstance(a.value, ast.SetComp) and len(a.value.generators) == 2):
+        return False
+    L = a.targets[0].id
+    g1, g2 = a.value.generators
+    if not (isinstance(g1.target, ast.Name) and not g1.ifs and _norm(g1.iter) == "self._glob_patterns"
+            and isinstance(g2.target, ast.Name) and m.is_call(g2.iter, "glob.glob", 1)
+            and isinstance(g2.iter.args[0], ast.Name) and g2.iter.args[0].id == g1.target.id
+            and len(g2.ifs) == 1 and m.is_call(g2.ifs[0], "os.path.isfile", 1)
+            and isinstance(g2.ifs[0].args[0], ast.Name) and g2.ifs[0].args[0].id == g2.target.id
+            and isinstance(a.value.elt, ast.Name) and a.value.elt.id == g2.target.id
+            and g1.target.id != g2.target.id):
+        return False
+    return (isinstance(c, ast.Expr) and isinstance(c.value, ast.Call) and _norm(c.value.func) == "self._retention_function"
+            and len(c.value.args) == 1 and not c.value.keywords and m.is_call(c.value.args[0], "list", 1)
+            and isinstance(c.value.args[0].args[0], ast.Name) and c.value.args[0].args[0].id == L)
+
+
+def _terminate(m):
+    fn = find_func(m.tree, "_terminate_file", cls="FileSink")
     stmts = fn.body
-    # locate the guard that contains the retention block, and the final create
     idx_guard = idx_create = None
     for i, s in enumerate(stmts):
-        if isinstance(s, ast.If) and any("self._retention_function(" in _norm(x) for x in ast.walk(s)
-                                         if isinstance(x, ast.Expr)):
+        if isinstance(s, ast.If) and any(isinstance(x, ast.Call) and _norm(x.func) == "self._retention_function"
+                                         for x in ast.walk(s)):
             idx_guard = i
         if isinstance(s, ast.If) and _norm(s.test) == "is_rotating" and any(
-                _norm(x).startswith("self._create_file(") for x in s.body):
+                isinstance(x, ast.Expr) and isinstance(x.value, ast.Call) and _norm(x.value.func) == "self._create_file"
+                for x in s.body):
             idx_create = i
     if idx_guard is None or idx_create is None:
         raise Unsupported("_terminate_file: retention guard or create block not found")
     guard = stmts[idx_guard]
-    env = {"is_rotating": ("is_rotating", "bool")}
 
     class GTr(Tr):
         def tr(self, node):
@@ -152,55 +425,51 @@ def _terminate(tree):
                 return ("rotation_is_none", "bool")
             return super().tr(node)
 
-    gterm, gtyp = GTr(env).tr(guard.test)
+    gterm, gtyp = GTr({"is_rotating": ("is_rotating", "bool")}).tr(guard.test)
     if gtyp != "bool" or guard.orelse:
         raise Unsupported("retention guard")
-    # inside the guard: [compression if] then [retention if]
     inner = guard.body
     rets = [s for s in inner if isinstance(s, ast.If) and _norm(s.test) == "self._retention_function is not None"]
     if len(rets) != 1 or inner[-1] is not rets[0] or rets[0].orelse:
         raise Unsupported("retention block is not the last statement of its guard")
-    rb = [_norm(s) for s in rets[0].body]
-    want = ["logs = {file for pattern in self._glob_patterns for file in glob.glob(pattern) if os.path.isfile(file)}",
-            "self._retention_function(list(logs))"]
-    if rb != want:
-        raise Unsupported("retention block changed: %r" % (rb,))
-    # nothing else in the function may call the retention function or os.remove/glob
+    if not _is_retention_block(m, rets[0].body):
+        raise Unsupported("retention block changed: %r" % ([_norm(s) for s in rets[0].body],))
     n_calls = sum(1 for x in ast.walk(fn) if isinstance(x, ast.Call) and _norm(x.func) == "self._retention_function")
     if n_calls != 1:
         raise Unsupported("_terminate_file calls the retention function %d times" % n_calls)
     out = "/-- guard of the compression/retention block: `%s` -/\n" % _norm(guard.test)
     out += "def retentionGuard (is_rotating rotation_is_none : Bool) : Bool := %s\n" % gterm
-    out += "/-- statement index of the guard and of `if is_rotating: self._create_file(new_path)` -/\n"
+    out += "/-- is the guard placed before `if is_rotating: self._create_file(new_path)`?  (statement indices) -/\n"
     out += "def guardIndex : Nat := %d\ndef createIndex : Nat := %d\n\n" % (idx_guard, idx_create)
-    # write() and stop(): how _terminate_file is reached
-    w = find_func(tree, "write", cls="FileSink")
+    w = find_func(m.tree, "write", cls="FileSink")
     calls_w = [_norm(x) for x in ast.walk(w) if isinstance(x, ast.Call) and _norm(x.func) == "self._terminate_file"]
-    s = find_func(tree, "stop", cls="FileSink")
+    s = find_func(m.tree, "stop", cls="FileSink")
     calls_s = [_norm(x) for x in ast.walk(s) if isinstance(x, ast.Call) and _norm(x.func) == "self._terminate_file"]
     if calls_w != ["self._terminate_file(is_rotating=True)"] or calls_s != ["self._terminate_file(is_rotating=False)"]:
         raise Unsupported("write()/stop() reach _terminate_file differently: %r %r" % (calls_w, calls_s))
-    init = find_func(tree, "__init__", cls="FileSink")
-    if "self._glob_patterns = self._make_glob_patterns(self._path)" not in [_norm(x) for x in init.body]:
+    init = find_func(m.tree, "__init__", cls="FileSink")
+    if not any(_norm(x) == "self._glob_patterns = self._make_glob_patterns(self._path)" for x in ast.walk(init)
+               if isinstance(x, ast.Assign)):
         raise Unsupported("__init__ no longer derives _glob_patterns from self._path")
     return out
 
 
+# ----------------------------------------------------------------------------- _make_retention_function
 US = 1000000
 
 
-def _seconds_expr(node):
+def _seconds_expr(node, arg):
     """translate the `seconds=` argument of the timedelta branch into a Lean Int term measured in
     MICROSECONDS, as a function of `us` = the timedelta's exact length in microseconds.  Accepted:
-    `retention.total_seconds()`, `float(E)`, `int(E)` (truncation to whole seconds), `math.floor(E)`,
-    `math.ceil(E)`, `round(E)` is refused (half-even on floats), `E // k`/`E * k`/`E + k`/`E - k`
-    for int literals k, `abs(E)`, `-E`.  Anything else fails closed."""
-    src = _norm(node)
-    if src == "retention.total_seconds()":
+    `<arg>.total_seconds()`, `float(E)`, `int(E)` (truncation to whole seconds), `math.floor(E)`,
+    `math.ceil(E)`, `E // k`/`E * k`/`E + k`/`E - k` for int literals k, `abs(E)`, `-E`.  `round`
+    (half-even on floats) and anything else fail closed."""
+    if isinstance(node, ast.Call) and isinstance(node.func, ast.Attribute) and node.func.attr == "total_seconds" \
+            and isinstance(node.func.value, ast.Name) and node.func.value.id == arg and not node.args and not node.keywords:
         return "us"
     if isinstance(node, ast.Call) and not node.keywords and len(node.args) == 1:
         f = _norm(node.func)
-        e = _seconds_expr(node.args[0])
+        e = _seconds_expr(node.args[0], arg)
         if f == "float":
             return e
         if f == "int":
@@ -212,10 +481,10 @@ def _seconds_expr(node):
         if f == "abs":
             return "(Int.natAbs %s : Int)" % e
     if isinstance(node, ast.UnaryOp) and isinstance(node.op, ast.USub):
-        return "(-%s)" % _seconds_expr(node.operand)
+        return "(-%s)" % _seconds_expr(node.operand, arg)
     if isinstance(node, ast.BinOp) and isinstance(node.right, ast.Constant) and isinstance(node.right.value, int) \
             and not isinstance(node.right.value, bool):
-        e, k = _seconds_expr(node.left), node.right.value
+        e, k = _seconds_expr(node.left, arg), node.right.value
         if isinstance(node.op, ast.Add):
             return "(%s + %d)" % (e, k * US)
         if isinstance(node.op, ast.Sub):
@@ -224,52 +493,76 @@ def _seconds_expr(node):
             return "(%s * %d)" % (e, k)
         if isinstance(node.op, ast.FloorDiv) and k > 0:
             return "(Int.fdiv %s %d * %d)" % (e, k * US, US)
-    raise Unsupported("seconds= expression of the timedelta branch: " + src)
+    raise Unsupported("seconds= expression of the timedelta branch: " + _norm(node))
 
 
-def _dispatch(tree):
+def _dispatch(m):
     """`_make_retention_function`: None / str (parse_duration, ValueError when None, recursion on the
     interval) / int -> count(number=<expr>) / timedelta -> age(seconds=<expr>) / callable / TypeError,
     in this order; the two keyword expressions become kernels."""
-    fn = find_func(tree, "_make_retention_function", cls="FileSink")
-    if [a.arg for a in fn.args.args] != ["retention"]:
-        raise Unsupported("_make_retention_function signature")
-    body = fn.body
+    fn = find_func(m.tree, "_make_retention_function", cls="FileSink")
+    (arg,) = arg_names(fn, 1)
+    body = flatten_ifs(fn.body)
     if len(body) != 6 or not all(isinstance(s, ast.If) and not s.orelse for s in body[:5]) \
             or not isinstance(body[5], ast.Raise):
-        raise Unsupported("_make_retention_function: expected five `if` statements and a final raise")
-    tests = [_norm(s.test) for s in body[:5]]
-    want_tests = ["retention is None", "isinstance(retention, str)", "isinstance(retention, int)",
-                  "isinstance(retention, datetime.timedelta)", "callable(retention)"]
-    if tests != want_tests:
-        raise Unsupported("_make_retention_function dispatch tests/order changed: %r" % (tests,))
-    if [_norm(s) for s in body[0].body] != ["return None"]:
+        raise Unsupported("_make_retention_function: expected five tests and a final raise")
+
+    def is_inst(test, qualname):
+        return m.is_call(test, "isinstance", 2) and isinstance(test.args[0], ast.Name) and test.args[0].id == arg \
+            and m.qual(test.args[1]) == qualname
+
+    t = [s.test for s in body[:5]]
+    if not (none_polarity(t[0], arg) == -1 and is_inst(t[1], "str") and is_inst(t[2], "int")
+            and is_inst(t[3], "datetime.timedelta")
+            and m.is_call(t[4], "callable", 1) and isinstance(t[4].args[0], ast.Name) and t[4].args[0].id == arg):
+        raise Unsupported("_make_retention_function dispatch tests/order changed: %r" % ([_norm(x) for x in t],))
+    if not (len(body[0].body) == 1 and isinstance(body[0].body[0], ast.Return)
+            and (body[0].body[0].value is None or _norm(body[0].body[0].value) == "None")):
         raise Unsupported("None branch")
-    sb = [_norm(s) for s in body[1].body]
-    if len(sb) != 3 or sb[0] != "interval = string_parsers.parse_duration(retention)" \
-            or not sb[1].startswith("if interval is None:\n    raise ValueError(") \
-            or sb[2] != "return FileSink._make_retention_function(interval)":
-        raise Unsupported("str branch changed: %r" % (sb,))
-    if _norm(body[5].exc.func) != "TypeError":
+    # str branch: I = parse_duration(arg); None -> ValueError; otherwise the function itself on I
+    sb = body[1].body
+    if not (len(sb) == 3 and isinstance(sb[0], ast.Assign) and len(sb[0].targets) == 1
+            and isinstance(sb[0].targets[0], ast.Name)
+            and m.is_call(sb[0].value, "loguru._string_parsers.parse_duration", 1)
+            and isinstance(sb[0].value.args[0], ast.Name) and sb[0].value.args[0].id == arg):
+        raise Unsupported("str branch does not start with `<interval> = parse_duration(retention)`")
+    iv = sb[0].targets[0].id
+
+    def is_rec(st):
+        return isinstance(st, ast.Return) and isinstance(st.value, ast.Call) \
+            and _norm(st.value.func) in ("FileSink._make_retention_function",) and len(st.value.args) == 1 \
+            and not st.value.keywords and isinstance(st.value.args[0], ast.Name) and st.value.args[0].id == iv
+
+    def is_verr(st):
+        return isinstance(st, ast.Raise) and isinstance(st.exc, ast.Call) and m.qual(st.exc.func) == "ValueError"
+
+    if not (isinstance(sb[1], ast.If) and not sb[1].orelse and len(sb[1].body) == 1):
+        raise Unsupported("str branch: expected one `if` about the parsed interval")
+    p = none_polarity(sb[1].test, iv)
+    ok = (p == -1 and is_verr(sb[1].body[0]) and is_rec(sb[2])) or (p == 1 and is_rec(sb[1].body[0]) and is_verr(sb[2]))
+    if not ok:
+        raise Unsupported("str branch changed: %r" % ([_norm(s) for s in sb],))
+    if not (isinstance(body[5].exc, ast.Call) and m.qual(body[5].exc.func) == "TypeError"):
         raise Unsupported("final raise is not a TypeError")
-    if [_norm(s) for s in body[4].body] != ["return retention"]:
+    if not (len(body[4].body) == 1 and isinstance(body[4].body[0], ast.Return)
+            and isinstance(body[4].body[0].value, ast.Name) and body[4].body[0].value.id == arg):
         raise Unsupported("callable branch")
 
     def partial_kw(stmt, func, kw):
         if len(stmt.body) != 1 or not isinstance(stmt.body[0], ast.Return):
             raise Unsupported("branch is not a single return: " + _norm(stmt))
         call = stmt.body[0].value
-        if not (isinstance(call, ast.Call) and _norm(call.func) == "partial" and len(call.args) == 1
-                and _norm(call.args[0]) == func and len(call.keywords) == 1 and call.keywords[0].arg == kw):
+        if not (m.is_call(call, "functools.partial", 1, 1) and _norm(call.args[0]) == func
+                and call.keywords[0].arg == kw):
             raise Unsupported("expected partial(%s, %s=...): %s" % (func, kw, _norm(call)))
         return call.keywords[0].value
 
     num = partial_kw(body[2], "Retention.retention_count", "number")
-    nterm, ntyp = Tr({"retention": ("retention", "int")}).tr(num)
+    nterm, ntyp = Tr({arg: ("retention", "int")}).tr(num)
     if ntyp != "int":
         raise Unsupported("number= is not an int expression")
     sec = partial_kw(body[3], "Retention.retention_age", "seconds")
-    sterm = _seconds_expr(sec)
+    sterm = _seconds_expr(sec, arg)
     out = "/-- int branch: `number=%s` -/\n" % _norm(num)
     out += "def countNumber (retention : Int) : Int := %s\n" % nterm
     out += "/-- timedelta branch: `seconds=%s`, in MICROSECONDS as a function of the timedelta's exact length\n" % _norm(sec)
@@ -278,17 +571,175 @@ def _dispatch(tree):
     return out
 
 
+# ----------------------------------------------------------------------------- parse_duration
+DURATION_REGEX = r"(?:([e\+\-\.\d]+)\s*([a-z]+)[\s\,]*)"
+
+
+def expand_alternatives(rx):
+    """strings matched by a regex made of literals, `c?`, `(?:abc)?` and top-level `|`"""
+    out = []
+    for alt in rx.split("|"):
+        acc = [""]
+        i = 0
+        while i < len(alt):
+            if alt.startswith("(?:", i):
+                j = alt.index(")", i)
+                grp = alt[i + 3:j]
+                if not grp.isalpha() or j + 1 >= len(alt) or alt[j + 1] != "?":
+                    raise Unsupported("unit regex " + rx)
+                acc = acc + [a + grp for a in acc]
+                i = j + 2
+            elif alt[i].isalpha():
+                if i + 1 < len(alt) and alt[i + 1] == "?":
+                    acc = acc + [a + alt[i] for a in acc]
+                    i += 2
+                else:
+                    acc = [a + alt[i] for a in acc]
+                    i += 1
+            else:
+                raise Unsupported("unit regex " + rx)
+        out += acc
+    return sorted(set(out), key=lambda s: (len(s), s))
+
+
+def _has_flag_I(m, call):
+    return len(call.keywords) == 1 and call.keywords[0].arg == "flags" and m.qual(call.keywords[0].value) in ("re.I", "re.IGNORECASE")
+
+
+def _parse_duration(m):
+    """pin, independently of the names of locals: strip; the item regex; the full-match guard
+    (`None` otherwise); for every `re.findall` item (V, N): A = float(V) (ValueError), F = first
+    multiplier whose spelling regex full-matches N ignoring case (ValueError), total += A * F;
+    `timedelta(seconds=total)`; and emit the unit table."""
+    fn = find_func(m.tree, "parse_duration")
+    (d0,) = arg_names(fn, 1)
+    body = list(fn.body)
+    cur = d0          # the name holding the stripped text
+    reg = units = total = None
+    i = 0
+
+    def is_name(n, name):
+        return isinstance(n, ast.Name) and n.id == name
+
+    guard_seen = stripped = False
+    while i < len(body) and not isinstance(body[i], ast.For):
+        st = body[i]
+        i += 1
+        if isinstance(st, ast.If):
+            # the full-match guard: `if not re.fullmatch(reg + "+", text, flags=re.I): return None`
+            t = st.test
+            if guard_seen or reg is None or not stripped or not (
+                    isinstance(t, ast.UnaryOp) and isinstance(t.op, ast.Not) and m.is_call(t.operand, "re.fullmatch", 2, 1)
+                    and _has_flag_I(m, t.operand) and is_name(t.operand.args[1], cur)
+                    and isinstance(t.operand.args[0], ast.BinOp) and isinstance(t.operand.args[0].op, ast.Add)
+                    and is_name(t.operand.args[0].left, reg) and isinstance(t.operand.args[0].right, ast.Constant)
+                    and t.operand.args[0].right.value == "+" and not st.orelse and len(st.body) == 1
+                    and isinstance(st.body[0], ast.Return)
+                    and (st.body[0].value is None or _norm(st.body[0].value) == "None")):
+                raise Unsupported("parse_duration: full-match guard changed or misplaced: " + _norm(st)[:160])
+            guard_seen = True
+            continue
+        if not (isinstance(st, ast.Assign) and len(st.targets) == 1 and isinstance(st.targets[0], ast.Name)):
+            raise Unsupported("parse_duration: unexpected statement " + _norm(st)[:120])
+        tgt, val = st.targets[0].id, st.value
+        if isinstance(val, ast.Call) and isinstance(val.func, ast.Attribute) and val.func.attr == "strip" \
+                and is_name(val.func.value, cur) and not val.args and not val.keywords and not guard_seen and not stripped:
+            cur, stripped = tgt, True
+        elif isinstance(val, ast.Constant) and isinstance(val.value, str) and reg is None:
+            if val.value != DURATION_REGEX:
+                raise Unsupported("parse_duration regex changed: %r" % (val.value,))
+            reg = tgt
+        elif isinstance(val, ast.List) and units is None:
+            units = (tgt, val)
+        elif isinstance(val, ast.Constant) and not isinstance(val.value, bool) and val.value == 0 and total is None:
+            total = tgt
+        else:
+            raise Unsupported("parse_duration: unexpected assignment " + _norm(st)[:120])
+    if not guard_seen or not stripped or reg is None or units is None or total is None:
+        raise Unsupported("parse_duration: strip / regex / units / accumulator / full-match guard missing")
+    if len({cur, reg, units[0], total}) != 4:
+        raise Unsupported("parse_duration: name clash")
+    rest = body[i:]
+    if len(rest) != 2 or not isinstance(rest[0], ast.For) or not isinstance(rest[1], ast.Return):
+        raise Unsupported("parse_duration: expected one loop and a final return")
+    loop, ret = rest
+    if not (m.is_call(ret.value, "datetime.timedelta", 0, 1) and ret.value.keywords[0].arg == "seconds"
+            and is_name(ret.value.keywords[0].value, total)):
+        raise Unsupported("parse_duration: final return is not timedelta(seconds=<total>)")
+    if not (isinstance(loop.target, ast.Tuple) and len(loop.target.elts) == 2
+            and all(isinstance(e, ast.Name) for e in loop.target.elts) and not loop.orelse
+            and m.is_call(loop.iter, "re.findall", 2, 1) and _has_flag_I(m, loop.iter)
+            and is_name(loop.iter.args[0], reg) and is_name(loop.iter.args[1], cur)):
+        raise Unsupported("parse_duration: loop is not `for V, N in re.findall(reg, text, flags=re.I)`")
+    V, N = (e.id for e in loop.target.elts)
+    lb = loop.body
+    if len(lb) != 3 or not isinstance(lb[0], ast.Try) or not isinstance(lb[1], ast.Try) or not isinstance(lb[2], ast.AugAssign):
+        raise Unsupported("parse_duration: loop body is not try / try / +=")
+
+    def try_assign(t, exc):
+        if not (len(t.body) == 1 and isinstance(t.body[0], ast.Assign) and len(t.body[0].targets) == 1
+                and isinstance(t.body[0].targets[0], ast.Name) and not t.orelse and not t.finalbody
+                and len(t.handlers) == 1 and t.handlers[0].type is not None and m.qual(t.handlers[0].type) == exc
+                and len(t.handlers[0].body) == 1 and isinstance(t.handlers[0].body[0], ast.Raise)
+                and isinstance(t.handlers[0].body[0].exc, ast.Call)
+                and m.qual(t.handlers[0].body[0].exc.func) == "ValueError"):
+            raise Unsupported("parse_duration: try block changed: " + _norm(t)[:120])
+        return t.body[0].targets[0].id, t.body[0].value
+
+    A, aval = try_assign(lb[0], "ValueError")
+    if not (m.is_call(aval, "float", 1) and is_name(aval.args[0], V)):
+        raise Unsupported("parse_duration: value is not float(<item value>)")
+    F, fval = try_assign(lb[1], "StopIteration")
+    # the unit name read inside the generator is the loop's N unless A rebinding shadows it (A != N required)
+    if A == N:
+        raise Unsupported("parse_duration: the float rebinding shadows the unit text")
+    if not (m.is_call(fval, "next", 1) and isinstance(fval.args[0], ast.GeneratorExp)
+            and len(fval.args[0].generators) == 1):
+        raise Unsupported("parse_duration: multiplier is not next(<generator>)")
+    g = fval.args[0]
+    c = g.generators[0]
+    if not (isinstance(c.target, ast.Tuple) and len(c.target.elts) == 2 and all(isinstance(e, ast.Name) for e in c.target.elts)
+            and is_name(c.iter, units[0]) and len(c.ifs) == 1 and m.is_call(c.ifs[0], "re.fullmatch", 2, 1)
+            and _has_flag_I(m, c.ifs[0]) and is_name(c.ifs[0].args[0], c.target.elts[0].id)
+            and is_name(c.ifs[0].args[1], N) and is_name(g.elt, c.target.elts[1].id)
+            and c.target.elts[0].id != c.target.elts[1].id and N not in (c.target.elts[0].id, c.target.elts[1].id)):
+        raise Unsupported("parse_duration: unit lookup changed: " + _norm(fval))
+    aug = lb[2]
+    if not (isinstance(aug.op, ast.Add) and is_name(aug.target, total) and isinstance(aug.value, ast.BinOp)
+            and isinstance(aug.value.op, ast.Mult)
+            and {getattr(aug.value.left, "id", None), getattr(aug.value.right, "id", None)} == {A, F} and A != F):
+        raise Unsupported("parse_duration: accumulation is not `<total> += <value> * <multiplier>`")
+    rows = []
+    for e in units[1].elts:
+        if not (isinstance(e, ast.Tuple) and len(e.elts) == 2 and isinstance(e.elts[0], ast.Constant)
+                and isinstance(e.elts[0].value, str) and isinstance(e.elts[1], ast.Constant)
+                and isinstance(e.elts[1].value, (int, float)) and not isinstance(e.elts[1].value, bool)):
+            raise Unsupported("units entry: " + _norm(e))
+        alts = expand_alternatives(e.elts[0].value)
+        us = Fraction(repr(e.elts[1].value)) * 1000000
+        if us.denominator != 1:
+            raise Unsupported("unit multiplier is not a whole number of microseconds: %r" % e.elts[1].value)
+        rows.append("  ([%s], (%d : Int))" % (", ".join(lean_chars(a) for a in alts), us.numerator))
+    out = "/-- `units` of parse_duration: spellings (lower case; matching ignores case), microseconds; first match wins -/\n"
+    out += "def durationUnits : List (List Py.Str × Int) := [\n" + ",\n".join(rows) + "]\n\n"
+    return out
+
+
 def generate():
     errors = []
     body = "import LoguruModel.Py.Basic\nset_option linter.unusedVariables false\nnamespace Retention.Gen\n\n"
     try:
         tree, _ = parse_module("_file_sink.py")
-        body += _glob_patterns(tree)
-        body += _retention_count(tree)
-        body += _retention_age(tree)
-        body += _terminate(tree)
-        body += _dispatch(tree)
-    except (Unsupported, SyntaxError, KeyError, AttributeError, IndexError, TypeError) as e:
+        m = Mod(tree)
+        m.alias.setdefault("partial", "functools.partial")
+        body += _glob_patterns(m)
+        body += _retention_count(m)
+        body += _retention_age(m)
+        body += _terminate(m)
+        body += _dispatch(m)
+        sp, _ = parse_module("_string_parsers.py")
+        body += _parse_duration(Mod(sp))
+    except (Unsupported, SyntaxError, KeyError, AttributeError, IndexError, TypeError, ValueError) as e:
         errors.append("%s: %s" % (type(e).__name__, e))
     body += "end Retention.Gen\n"
-    return emit("Retention", body, ["loguru/_file_sink.py"], errors)
+    return emit("Retention", body, ["loguru/_file_sink.py", "loguru/_string_parsers.py"], errors)
